@@ -332,14 +332,21 @@ Definition istep (disk : bytes) (h : ihandle) (o : op) : bytes * ihandle * res :
     if negb (i_rd h) then (disk, h, RFail) else
     let (d1, h1) := iflush disk h in
     let (h', r) := ireads d1 h1 fs [] in (d1, h', r)
+  (* making an iterator reads nothing; its first step flushes *)
   | OLines k =>
     if negb (i_rd h) then (disk, h, RFail) else
-    let (d1, h1) := iflush disk h in
-    let (h', r) := ilines d1 h1 k [] in (d1, h', r)
+    match k with
+    | O => (disk, h, RVals [])
+    | S _ => let (d1, h1) := iflush disk h in
+             let (h', r) := ilines d1 h1 k [] in (d1, h', r)
+    end
   | ONext k =>
     if negb (i_rd h) then (disk, h, RUnsupported) else
-    let (d1, h1) := iflush disk h in
-    let (h', r) := ilines d1 h1 k [] in (d1, h', r)
+    match k with
+    | O => (disk, h, RVals [])
+    | S _ => let (d1, h1) := iflush disk h in
+             let (h', r) := ilines d1 h1 k [] in (d1, h', r)
+    end
   | OWrite ss =>
     if negb (i_wr h) then (disk, h, RFail) else
     let (d', h') := fold_left iwrite1 ss (disk, abandon h) in (d', h', RTrue)
